@@ -664,6 +664,17 @@ func csrfMain(s *simrt.Sim, info *harness.RunInfo) {
 		case 3:
 			return "https://" + simrt.PickS(s, "a", "a.b", "shop", "x-1") + ".example.com", "wild-sub"
 		case 4:
+			if s.Chance(300) {
+				// the request's own (or a trusted) origin as the userinfo of another host of the same length
+				victim := scheme + "://" + host
+				if len(trustedExact) > 0 && s.Chance(500) {
+					victim = trustedExact[s.Draw(len(trustedExact))]
+				}
+				if i := strings.Index(victim, "://"); i > 0 && len(victim)-i-3 > 4 {
+					n := len(victim) - i - 3
+					return victim + "@" + strings.Repeat("e", n-3) + ".io", "lookalike"
+				}
+			}
 			return simrt.PickS(s, "https://evilexample.com", "https://example.com.evil.io", "https://evil-example.com", "https://trusted.example.org.evil.io", "https://example.com@evil.io"), "lookalike"
 		case 5:
 			return other + "://" + host, "other-scheme"
